@@ -327,6 +327,10 @@ class MathArray(np.ndarray):
             # just in case it had been an integer-like float
             exponent = int(exponent)
             try:
+                # LAPACK only reports matrices with an exact zero pivot as singular,
+                # so test the numerical rank before inverting
+                if exponent < 0 and np.linalg.matrix_rank(self) < self.shape[0]:
+                    raise np.linalg.LinAlgError('Singular matrix')
                 return np.linalg.matrix_power(self, exponent)
             except np.linalg.LinAlgError as error:
                 if str(error).startswith('Singular'):
